@@ -82,12 +82,69 @@ def r2(ctx):
     ys = [y for y in walk_no_nested(gc) if isinstance(y, ast.Yield) and isinstance(y.value, ast.Tuple)]
     cf = ctx.fn(BINCOUNTS, CF)
     unpack = [s for s in cf.body if isinstance(s, ast.Assign) and isinstance(s.targets[0], ast.Tuple) and src(s.value) == cf.args.args[0].arg]
-    ok = len(ys) == 1 and len(unpack) == 1 and [src(e) for e in ys[0].value.elts] == [src(e) for e in unpack[0].targets[0].elts]
+    ok = False
+    if len(ys) == 1 and len(unpack) == 1 and len(ys[0].value.elts) == len(unpack[0].targets[0].elts):
+        params = {a.arg for a in gc.args.args}
+        # roles of the produced elements: a parameter of generate_commands (same name on the consuming side), the k-th field of the job
+        # tuple (contig, start, end), or the loop variable over the input files (the consumer's alignments_path)
+        job_fields = {}
+        file_vars = set()
+        for l_ in [x for x in walk_no_nested(gc) if isinstance(x, ast.For)]:
+            if 'generate_jobs' in src(l_.iter):
+                tgt = l_.target
+                if isinstance(tgt, ast.Tuple) and len(tgt.elts) == 2 and isinstance(tgt.elts[1], ast.Tuple):
+                    tgt = tgt.elts[1]
+                if isinstance(tgt, ast.Tuple):
+                    job_fields = {e.id: ('contig', 'start', 'end')[k] for k, e in enumerate(tgt.elts) if isinstance(e, ast.Name) and k < 3}
+            elif isinstance(l_.target, ast.Name):
+                file_vars.add(l_.target.id)
+        ok = True
+        for e, u in zip(ys[0].value.elts, unpack[0].targets[0].elts):
+            en, un = src(e), src(u)
+            if en in job_fields:
+                ok = ok and job_fields[en] == un
+            elif en in file_vars:
+                ok = ok and un == 'alignments_path'
+            elif en in params:
+                ok = ok and en == un
+            else:
+                ok = False
     ctx.emit('C12-R2', ok, BINCOUNTS, ys[0] if ys else gc, 'command tuples are produced and unpacked with the same field order', key='command-fields')
     call = [c for c in walk_no_nested(gc) if isinstance(c, ast.Call) and dotted(c.func) == 'generate_jobs']
     kw = {k.arg: src(k.value) for k in call[0].keywords} if call else {}
     ok = kw.get('bin_size') == 'bin_size' and kw.get('bins_per_job') == 'bins_per_job'
     ctx.emit('C12-R2', ok, BINCOUNTS, call[0] if call else gc, 'jobs are generated with the same bin_size the counter bins with', key='same-bin-size', nontrivial=False)
+
+
+def _count_aliases(loop):
+    """locals bound to the per-bin sample dictionary: `X = counts.setdefault(B, {})` / `X = counts[B]`"""
+    out = set()
+    for s_ in walk_no_nested(loop):
+        if isinstance(s_, ast.Assign) and len(s_.targets) == 1 and isinstance(s_.targets[0], ast.Name):
+            v = s_.value
+            if (isinstance(v, ast.Call) and isinstance(v.func, ast.Attribute) and v.func.attr == 'setdefault' and src(v.func.value) == 'counts' and len(v.args) == 2
+                    and isinstance(v.args[1], ast.Dict) and not v.args[1].keys) or (isinstance(v, ast.Subscript) and src(v.value) == 'counts'):
+                out.add(s_.targets[0].id)
+    return out
+
+
+def _is_count_event(a, aliases):
+    """the statement adds exactly one to a (bin, sample) counter: `counts[B][S] += 1`, the initialising `counts[B][S] = 1`, or
+    `D[S] = D.get(S, 0) + 1` with D the per-bin dictionary"""
+    if isinstance(a, ast.AugAssign) and isinstance(a.op, ast.Add) and src(a.value) == '1' and isinstance(a.target, ast.Subscript):
+        base = a.target.value
+        return (isinstance(base, ast.Subscript) and src(base.value) == 'counts') or (isinstance(base, ast.Name) and base.id in aliases)
+    if isinstance(a, ast.Assign) and len(a.targets) == 1 and isinstance(a.targets[0], ast.Subscript):
+        t = a.targets[0]
+        base = t.value
+        per_bin = (isinstance(base, ast.Subscript) and src(base.value) == 'counts') or (isinstance(base, ast.Name) and base.id in aliases)
+        if not per_bin:
+            return False
+        if src(a.value) == '1':
+            return True
+        want = {f'{src(base)}.get({src(t.slice)}, 0) + 1', f'1 + {src(base)}.get({src(t.slice)}, 0)'}
+        return src(a.value) in want
+    return False
 
 
 @rule('C12', 'C12-R3', 'the bin of a read is floor(site / bin_size): bin start = bin_size * index, bin end = min(bin_size * (index + 1), contig size)')
@@ -105,10 +162,12 @@ def r3(ctx):
     ctx.emit('C12-R3', okb, BINCOUNTS, loop, f'bin = [{src(bs) if bs is not None else None}, {src(be) if be is not None else None})', key='bin-bounds')
     # site provenance: DS tag, else alignment start
     tr = [t for t in loop.body if isinstance(t, ast.Try)]
-    ok = bool(tr) and any("get_tag('DS')" in src(s) and src(s.targets[0]) == 'site' for s in tr[0].body if isinstance(s, ast.Assign))
+    ds_locals = {s_.targets[0].id for s_ in walk_no_nested(loop) if isinstance(s_, ast.Assign) and len(s_.targets) == 1 and isinstance(s_.targets[0], ast.Name) and "get_tag('DS')" in src(s_.value)}
+    ok = bool(tr) and any(isinstance(s_, ast.Assign) and src(s_.targets[0]) == 'site' and ("get_tag('DS')" in src(s_.value) or (names_in(s_.value) & ds_locals)) for s_ in walk_no_nested(tr[0]))
     ctx.emit('C12-R3', ok, BINCOUNTS, tr[0] if tr else loop, 'site is the DS tag of the read (fallback: alignment start)', key='site-provenance', nontrivial=False)
     # exactly one increment per counted read
     cfg = CFG(loop.body, exceptions=False)
+    aliases = _count_aliases(loop)
     bad = []
     n = 0
     for p, _ in cfg.paths():
@@ -118,9 +177,7 @@ def r3(ctx):
         inc = 0
         for nid, _l in p:
             a = cfg.nodes[nid].ast
-            if cfg.nodes[nid].kind == 'stmt' and isinstance(a, ast.AugAssign) and 'counts[bin_id][sample]' == src(a.target) and src(a.value) == '1':
-                inc += 1
-            if cfg.nodes[nid].kind == 'stmt' and isinstance(a, ast.Assign) and src(a.targets[0]) == 'counts[bin_id][sample]' and src(a.value) == '1':
+            if cfg.nodes[nid].kind == 'stmt' and _is_count_event(a, aliases):
                 inc += 1
         if inc != 1:
             bad.append(inc)
@@ -233,7 +290,8 @@ def r6(ctx):
         return {'KeyError'} if any(isinstance(n_, ast.Call) and isinstance(n_.func, ast.Attribute) and n_.func.attr == 'get_tag' for n_ in walk_no_nested(tgt)) else set()
     rs = explore(after, lambda e: UNK, may_raise=may_raise, is_subclass=ctx.ix.is_subclass_name)
     ctx.counters['paths_enumerated'] += len(rs)
-    skipped = [r for r in rs if r['kind'] in ('fall', 'continue', 'break') and not any(t.startswith('counts[') and t.count('[') == 2 for t, v, k in r['stores'])]
+    aliases = _count_aliases(loop)
+    skipped = [r for r in rs if r['kind'] in ('fall', 'continue', 'break') and not any((t.startswith('counts[') and t.count('[') == 2) or t.split('[')[0] in aliases for t, v, k in r['stores'])]
     ctx.emit('C12-R6', bool(rs) and not skipped, BINCOUNTS, own[0], f'{len(rs)} paths from the ownership test to the end of the iteration (KeyError of get_tag modelled): every one increments a (bin, sample) counter'
              if rs and not skipped else f'a path after the ownership test ends the iteration without counting the read: {skipped[0]["path"][-300:] if skipped else None}',
              key='owned-read-always-counted', what='count_fragments_binned: an owned read is skipped (e.g. because an optional tag is missing)')
